@@ -108,7 +108,16 @@ Pre(st0, t) ==
 Assembled(st, pkts, t) ==
   LET asked == {ty \in Tys : \E k \in 1..Len(pkts) : \E j \in 1..Len(pkts[k].hq) : pkts[k].hq[j].ty = ty /\ ~pkts[k].hq[j].qu}
       ka == UNION {ToSet(pkts[k].hka) : k \in 1..Len(pkts)}
-  IN [st EXCEPT !.hist = [ty \in Tys |-> IF ty \in st.canAns /\ ty \in asked THEN [t |-> t, ka |-> ka] ELSE st.hist[ty]]]
+      \* a refresh attempt that falls into the 999 ms after a question was heard is made by not asking (C13: the question is on the
+      \* link, the answer will be multicast).  The attempts (record, step) of that type whose nominal instant lies in those 999 ms --
+      \* or whose window is open -- count as made when the list heard holds nothing this host does not know.
+      serves == {p \in Ids \X (0..2) :
+                   /\ st.rec[p[1]] # None /\ TyOf(p[1]) \in asked \cap st.canAns
+                   /\ ka \subseteq {i \in Ids : st.rec[i] # None /\ TyOf(i) = TyOf(p[1]) /\ ~(st.rec[i].c + 500 * st.rec[i].ttl <= t)}
+                   /\ t + 999 >= st.rec[p[1]].c + (750 + 100 * p[2]) * st.rec[p[1]].ttl
+                   /\ t <= WHi(st.rec[p[1]], p[2], st.delay)}
+  IN [st EXCEPT !.hist = [ty \in Tys |-> IF ty \in st.canAns /\ ty \in asked THEN [t |-> t, ka |-> ka] ELSE st.hist[ty]],
+                !.sat = @ \cup serves]
 HoldOf(st, src) == CHOOSE h \in st.hold : h.src = src
 HeardQuery(st, e) ==
   IF st.canAns = {} THEN st                                   \* nothing registered: queries are not looked at
@@ -220,10 +229,6 @@ OnQuery(st, e) ==
      ELSE IF Bad(\E ty \in tys : Suppressed(st, ty, t), "C13_Suppressed") THEN Fail(st, "C13_Suppressed")
      ELSE [Accumulate(st, e, t) EXCEPT !.lastQ = t]
 
-(* a query heard from the link (or the own query looped back): remembered when this host could answer it *)
-Heard(st, e) ==
-  [st EXCEPT !.hist = [ty \in Tys |-> IF ty \in st.canAns /\ \E k \in 1..Len(e.hq) : e.hq[k].ty = ty /\ ~e.hq[k].qu
-                                         THEN [t |-> e.t, ka |-> ToSet(e.hka)] ELSE st.hist[ty]]]
 
 Step(st0, e) ==
   IF e.ev = "start" THEN InitState
